@@ -2,6 +2,7 @@ import TucanProofs.Lemmas.Pipeline
 import TucanProofs.Examples
 import TucanProofs.Lemmas.Files
 import TucanProofs.Lemmas.FilesIdx
+import TucanProofs.Lemmas.MoreExamples
 /-!
 # C06 — TUCAN depends only on elements, isotopes, radicals and connectivity
 
@@ -91,5 +92,9 @@ theorem C06_line_endings (eol : Str) (he : IsEol eol) (lines : List Str) (hnb : 
   ⟨splitLines_fileText eol he lines hnb, fun h => splitLines_fileTextNoTrail eol he lines hnb h⟩
 
 example : exGraph.WF ∧ exGraph.Simple := ⟨exGraph_wf, exGraph_simple⟩
+
+/-- non-vacuity of `C06_v3000_file_any_indices`: atom lines numbered 7, 3, 12 -/
+example : V3StatesIdx FilesExample.mol [7, 3, 12] FilesExample.coords3 MoreExamples.atomsIdx MoreExamples.bondsIdx :=
+  MoreExamples.v3StatesIdx
 
 end Tucan
